@@ -347,6 +347,7 @@ static int sim_cond_wait(pthread_cond_t* c, pthread_mutex_t* m, int64_t deadline
         block(t, B_MUTEX, m, -1, false);
     }
     mutex_acquire(t, mo);
+    t->cond_reacquire_step = g_step;
     event_result(timed_out ? ETIMEDOUT : (spurious ? 1000 : 0));
     return timed_out ? ETIMEDOUT : 0;
 }
